@@ -43,6 +43,7 @@ func devMain(args []string) {
 	out := fs.String("out", "/verif/out/dev", "output directory")
 	timeout := fs.Int("timeout", 10, "per obligation timeout (s)")
 	kinds := fs.String("kinds", "", "only obligations whose kind matches this regexp")
+	obPat := fs.String("ob", "", "only obligations whose name matches this regexp")
 	failOnly := fs.Bool("fail", false, "print only non-discharged obligations")
 	lemmas := fs.Bool("lemmas", true, "also check lemmas matching the pattern")
 	fs.Parse(args)
@@ -73,10 +74,17 @@ func devMain(args []string) {
 			}
 		}
 	}
+	var obre *regexp.Regexp
+	if *obPat != "" {
+		obre = regexp.MustCompile(*obPat)
+	}
 	var jobs []*job
 	for _, r := range results {
 		for _, ob := range r.Obs {
 			if kre != nil && !kre.MatchString(ob.Kind) {
+				continue
+			}
+			if obre != nil && !obre.MatchString(ob.Name) {
 				continue
 			}
 			jobs = append(jobs, &job{ob: ob, path: obFile(*out, r.Name+"__"+ob.Name)})
